@@ -153,7 +153,7 @@ PENDING = ["none", "senders", "forever", "input", "all"]
 
 
 def lifecycle_scenario(i, cause, point, pending, opts=None, after_api=False, before_api=False, modes_history=None, isolate=False,
-                       waits_before_run=0, second=None):
+                       waits_before_run=0, second=None, inp_override=None):
     """One Program: get to `point` (a paused callback or idle), let `cause` strike there with `pending` work in
     flight, release the callback, expect Run to return.  Returns (scenario, meta) or None when the combination
     does not exist (e.g. a panic cause needs a callback to panic in)."""
@@ -164,6 +164,8 @@ def lifecycle_scenario(i, cause, point, pending, opts=None, after_api=False, bef
         inp = {"kind": "reader", "end": "fail"}
     elif pending in ("input", "all"):
         inp = {"kind": "reader", "end": "hold", "bytes": [97, 98, 99] if point == "idle" else []}
+    if inp_override is not None:
+        inp = inp_override
     upd = {}
     view = {}
     script = []
